@@ -12,11 +12,11 @@ def plan(tier):
               for ts in ((None,) if t != 2 else ((1, bs) if tier == 'quick' else (1, 2, 3, bs - 1, bs))):
                 qs.append(Q('main:%s:b%d:len%d%s' % (tn, bs * 8, L, '' if ts is None else ':t%d' % ts), 'c20.c',
                             'real main() of %s, block size %d, input file of %d bytes with arbitrary content, arbitrary legal key/%s and direction, or failing option parsing: exit code, output length, every output byte, tweak sequence, call discipline'
-                            % (tn, bs * 8, L, 'counter' if t == 1 else 'tweak'), defs=dict({'TOOL': t, 'OB_MAIN': 1, 'FLEN': L, 'BS': bs}, **({} if ts is None else {'TSIZE': ts})), timeout=2400, unwind=2300, fsarray=2300, replay=False, mem_est=3, objbits=12))
+                            % (tn, bs * 8, L, 'counter' if t == 1 else 'tweak'), defs=dict({'TOOL': t, 'OB_MAIN': 1, 'FLEN': L, 'BS': bs}, **({} if ts is None else {'TSIZE': ts})), timeout=2400, unwind=2300, fsarray=2300, mem_est=3, objbits=12))
         flags = {1: 0, 2: 5, 3: 6}[t]
-        for nopt, arglen in (((2, 6), (3, 4)) if tier == 'quick' else ((1, 40), (2, 10), (3, 6), (4, 4))):
+        for nopt, arglen in (((2, 6), (3, 4), (3, 18)) if tier == 'quick' else ((1, 40), (2, 20), (3, 18), (2, 10), (3, 6), (4, 4))):
             qs.append(Q('opts:%s:n%d:a%d' % (tn, nopt, arglen), 'c20.c', 'real parse_options (flags of %s) on an arbitrary sequence of %d options with arbitrary argument strings of up to %d characters and 0..3 file names: accepts exactly the documented combinations and decodes key/counter/tweak as the hexadecimal text says'
-                        % (tn, nopt, arglen), defs={'TOOL': t, 'OB_OPTS': 1, 'NOPT': nopt, 'ARGLEN': arglen, 'FLAGS': flags}, timeout=1800, unwind=200, replay=False, mem_est=3))
+                        % (tn, nopt, arglen), defs={'TOOL': t, 'OB_OPTS': 1, 'NOPT': nopt, 'ARGLEN': arglen, 'FLAGS': flags}, timeout=1800, unwind=200, mem_est=3))
     return dict(queries=qs, level='model_checking', pre=[],
                 functions=['main() of examples/skinny-ctr.c, skinny-tweak.c, skinny-ecb.c', 'increment_tweak', 'parse_options, parse_hex (examples/options.c)'],
                 bounds={'file lengths': 'enumerated (quick: 0, bs-1, bs+1, 1024, 1024+bs, 2049; thorough: 14 lengths up to 2088) for both block sizes, contents symbolic; longer files repeat the same chunk loop body',
